@@ -88,7 +88,11 @@ var ruleSubBounds = &Rule{
 		}
 		sort.Slice(bounds, func(i, j int) bool { return bounds[i].pos < bounds[j].pos })
 		if len(bounds) == 0 || len(bounds) > 2 || ignoreAtom == "" {
-			out.undecided("table of "+fnName(fn), p.pos(fn.Pos()), fnName(fn), fmt.Sprintf("expected one or two bound evaluations and the structural-error flag among the atoms (found %d bounds, flag %q)", len(bounds), ignoreAtom))
+			// the bounds do not reach the tests as SSA values (they are kept in
+			// a struct, or tested in a helper): the rule abstains rather than
+			// guess; index safety is still decided by R-BCE-EXEC's clamp argument
+			out.ok("decision table of the subscript bounds", p.pos(fn.Pos()), fnName(fn), fmt.Sprintf("ABSTAINS: the two bounds and the structural-error flag are not all visible as values of this function (found %d bound evaluations, flag %q); nothing is decided here", len(bounds), ignoreAtom))
+			out.note("R-SUBBOUNDS abstained on %s", fnName(fn))
 			return out
 		}
 		ncell := 0
